@@ -1672,6 +1672,42 @@ func GenC19(rng *rand.Rand, thorough bool, emit func(*Sx)) {
 			emit(RunConv(f.caseOf("C19", raws)))
 		}
 	}
+	// (b3) an over-long line where a SASL response (or initial response) is expected, arriving in two reads
+	// the first of which is short, well-formed base64: nothing of it may reach the mechanism
+	for _, L_ := range []int{60, 200} {
+		for _, initial := range []bool{false, true} {
+			for _, lmtp := range []bool{false, true} {
+				cfg := DefaultCfg()
+				cfg.MaxLine = L_
+				cfg.LMTP = lmtp
+				cfg.Insecure, cfg.HasAuth, cfg.Auth = true, true, []string{"PLAIN"}
+				f := newF(cfg)
+				f.hello()
+				f.script.Auth = []AuthPlan{{Start: BNil, Steps: []SaslStep{{Challenge: []byte("c")}, {Done: true}}}}
+				long := "dXNlcjpwYXNz" + strings.Repeat("QUJD", L_/2) + "\r\n"
+				var k int
+				if initial {
+					f.raw("AUTH PLAIN ")
+					k = len(f.out) + 12
+					f.raw(long)
+					f.expect(500)
+					f.add(L(A("max-events"), A("auth"), Num(0)))
+				} else {
+					f.cmd("AUTH PLAIN", 334)
+					f.cut()
+					k = len(f.out) + 12
+					f.raw(long)
+					f.expect(500)
+				}
+				f.add(L(A("max-events"), A("authnext"), Num(map[bool]int64{true: 0, false: 1}[initial])))
+				f.raw("MAIL FROM:<late@x>\r\n")
+				f.add(L(A("must-not-mail"), XS("late@x")))
+				f.add(L(A("expect-last"), Num(500)))
+				f.cuts = append(f.cuts, k, k+len(long)-12)
+				emit(RunConv(f.caseOf("C19", segStream(rng, f.out, f.cuts, 0, rawEOF))))
+			}
+		}
+	}
 	// (c) the error threshold
 	bads := []struct {
 		l string
